@@ -56,7 +56,7 @@ def build(fixdir, groups=ALL_GROUPS):
         api = specs_to_ir(read_specs('shapes'))
         _compile(api, 'python_client', ['-m', 'catclient', '-c', 'CatClient', '-t', 'catgen'],
                  os.path.join(fixdir, 'catgen'))
-        imports += ['catgen.cat', 'catgen.cat2', 'catgen.catclient']
+        imports += ['catgen.cat', 'catgen.cat2', 'catgen.catr', 'catgen.catclient']
     if 'annotated' in groups:
         api = specs_to_ir(read_specs('annotated'))
         _compile(api, 'python_types', ['-p', 'anngen'], os.path.join(fixdir, 'anngen'))
